@@ -241,6 +241,7 @@ func cmdCheck(args []string) int {
 		}
 		l.pkg = pkg
 		for _, w := range ws {
+			w.useSolver(l.SolverKind)
 			w.in.sol.record = *tier == "thorough" || *cross
 		}
 		l.explore(ws, entry)
@@ -447,7 +448,7 @@ func writeEvidence(verifRoot, prop, tier string, seed int, runs []*LemmaRun, vio
 			"assertions_checked":    l.Asserts,
 			"assertion_queries":     l.AssertQ,
 			"cover_points_reached":  l.Covers,
-			"solver":                map[string]any{"name": "z3 4.8.12 (incremental, -in)", "queries": l.Queries, "sat": l.Sat, "unsat": l.Unsat, "unknown": l.Unknowns, "seconds": round2(l.SolverSec)},
+			"solver":                map[string]any{"name": solverDisplayName(l.SolverKind), "queries": l.Queries, "sat": l.Sat, "unsat": l.Unsat, "unknown": l.Unknowns, "seconds": round2(l.SolverSec)},
 			"wall_s":                round2(l.Wall),
 			"functions_encoded_repo": repoFns,
 			"functions_encoded_lib":  libFns,
@@ -510,3 +511,10 @@ func writeEvidence(verifRoot, prop, tier string, seed int, runs []*LemmaRun, vio
 }
 
 func round2(f float64) float64 { return float64(int(f*100+0.5)) / 100 }
+
+func solverDisplayName(kind string) string {
+	if kind == "z3-new" {
+		return "z3 5.1.0 (z3-new, incremental, -in)"
+	}
+	return "z3 4.8.12 (incremental, -in)"
+}
